@@ -234,6 +234,38 @@ def mon_c17_share(hs, prev, op, ok, trace, cur, known):
     return None
 
 
+def mon_cfg_stored(hs, prev, op, ok, trace, cur, known):
+    """an ACCEPTED configuration update stores every field it carries (the designated principals and the
+    rates the properties speak about are the configured ones): hub UpdateConfig, dispatcher UpdateConfig,
+    reward UpdateConfig, registry UpdateConfig"""
+    if not ok or prev is None:
+        return None
+    t = op.split(' ')
+    if len(t) < 3 or t[2] != 'config':
+        return None
+    if t[0] == 'hub':
+        cc = cur.one('hub.cfg')
+        m = {3: 2, 4: 3, 5: 4, 6: 5, 7: 6, 8: 7, 9: 1}     # op field -> hub.cfg field
+    elif t[0] == 'disp':
+        cc = cur.one('dp.cfg')
+        m = {3: 1, 4: 2, 6: 4, 7: 5, 8: 6}                  # (the stSei denom is immutable: field 5 -> 3 is not stored)
+    elif t[0] == 'reward':
+        cc = cur.one('rw.cfg')
+        m = {3: 1, 4: 2, 5: 3}
+    elif t[0] == 'reg':
+        cc = cur.one('rg.cfg')
+        m = {3: 1}
+    else:
+        return None
+    if cc is None:
+        return None
+    for oi, di in m.items():
+        if oi < len(t) and t[oi] != '-' and di < len(cc) and cc[di] != t[oi]:
+            return ('violation', '%s UpdateConfig was accepted but field #%d is stored as %s, the message carried %s '
+                    '(a later field of the same message overwrote it, or it was dropped)' % (t[0], oi - 2, cc[di], t[oi]))
+    return None
+
+
 TX_HEADS = ('hub', 'cw', 'reward', 'disp', 'reg', 'bond')
 
 
@@ -368,6 +400,13 @@ def mon_c11(hs, prev, op, ok, trace, cur, known):
         old = prev.one('hub.oldwait')
         if old and int(old[0]) > 0 and t[7] in ('-', '0'):
             return ('violation', 'hub unpaused (paused=%s) while %s legacy wait-list entries remain' % (t[7], old[0]))
+    if t[0] == 'hub' and len(t) > 2 and t[2] == 'migrate' and ok:
+        old = prev.one('hub.oldwait')
+        if (old is None or int(old[0]) == 0) and prev.lines != cur.lines:
+            for a_, b_ in zip(prev.lines, cur.lines):
+                if a_ != b_:
+                    return ('violation', 'MigrateUnbondWaitList with no legacy entries left changed the state: %r -> %r '
+                            '(anybody may send it; it must not lift a pause on its own)' % (a_, b_))
     cpz = _cfg(cur, 'hub.params', 6)
     if cpz in ('0', '-') and pz == '1':
         old = cur.one('hub.oldwait')
@@ -549,7 +588,7 @@ HISTORY_MONITORS = {
     'C03': [M2.guarded(M2.mon_c03)],
     'C04': [M2.guarded(M2.mon_c04)],
     'C05': [M2.guarded(M2.mon_c05)],
-    'C06': [M2.guarded(M2.mon_c06)],
+    'C06': [M2.guarded(M2.mon_c06), M2.guarded(M2.mon_c01)],
     'C07': [M2.guarded(M2.mon_c07)],
     'C08': [M2.guarded(M2.mon_c08)],
     'C09': [M2.guarded(M2.mon_c09), M2.guarded(M2.mon_c09_probes), M2.guarded(M2.mon_c09_withdraw)],
@@ -559,10 +598,10 @@ HISTORY_MONITORS = {
     'C16': [M2.guarded(M2.mon_c16)],
     'C19': [M2.guarded(M2.mon_c19)],
     'C18': [mon_c18],
-    'C10': [mon_c10, mon_rejected_unchanged],
+    'C10': [mon_c10, mon_cfg_stored, mon_rejected_unchanged],
     'C11': [mon_c11, mon_rejected_unchanged],
-    'C17': [mon_c17, mon_c17_share, M2.guarded(M2.mon_c17_f2)],
-    'C20': [mon_c20, mon_rejected_unchanged],
+    'C17': [mon_c17, mon_c17_share, mon_cfg_stored, M2.guarded(M2.mon_c17_f2)],
+    'C20': [mon_c20, mon_cfg_stored, mon_rejected_unchanged],
 }
 
 
